@@ -57,6 +57,7 @@ nni_lmq_init(nni_lmq *lmq, size_t cap)
 	} else {
 		lmq->lmq_cap = cap;
 	}
+	LMQ_VERIF_CHECK(lmq, "init");
 }
 
 void
